@@ -579,6 +579,7 @@ def run(chk):
     _envlazy_rule(chk, prog)
     _flagorder_rule(chk, prog)
     _negzero_rule(chk, prog)
+    _depthsym_rule(chk, prog)
 
 
 def _asmrange_rule(chk, prog):
@@ -767,3 +768,48 @@ def _negzero_rule(chk, prog):
                           "`%s` is reached for -0.0 (it passes the int32 range test and its integer image is +0): the sign is lost, "
                           "a function constant -0.0 comes back as 0 and (/ x -0.0) gives inf instead of -inf after a round trip" % c.text()[:40])
     chk.floor(rule, 1, len(sites))
+
+
+def _depthsym_rule(chk, prog):
+    """Writer and reader guard their recursion with the same limit, counted in the low bits of `flags`.  If the reader
+    spends more levels than the writer on the same edge of the value graph (function -> its definition, definition
+    -> its constants ...), there are values the writer accepts and the reader refuses: a chain of 600 functions,
+    each a constant of the next, marshalled fine and raised `stack overflow` when read back."""
+    rule = "C09-DEPTHSYM"
+    chk.rule(rule, "for every kind of nesting, marshal_X -> marshal_Y and unmarshal_X -> unmarshal_Y step the recursion depth by the same amount")
+    tu = prog.tus["marsh.c"]
+
+    def edges(prefix):
+        out = {}
+        for fn in tu.funcs.values():
+            if not fn.name.startswith(prefix + "_one"):
+                continue
+            a = fn.name[len(prefix):]
+            for c in fn.nodes:
+                if c.k != "call" or not (c.callee or "").startswith(prefix + "_one"):
+                    continue
+                b = c.callee[len(prefix):]
+                f = strip_casts(c.args[-1])
+                if f.k == "ref" and f.name == "flags":
+                    k = 0
+                elif f.k == "bin" and f.op == "+" and strip_casts(f.kids[0]).k == "ref" and strip_casts(f.kids[1]).k == "int":
+                    k = strip_casts(f.kids[1]).v
+                else:
+                    continue
+                out.setdefault((a, b), {}).setdefault(k, []).append((fn, c))
+        return out
+    W, R = edges("marshal"), edges("unmarshal")
+    n = 0
+    for e in sorted(set(W) & set(R)):
+        n += 1
+        chk.instance(rule)
+        chk.analysed(R[e][sorted(R[e])[0]][0][0])
+        if set(W[e]) == set(R[e]):
+            chk.ok(rule, "%s -> %s: both sides step by %s" % (e[0], e[1], sorted(W[e])))
+        else:
+            k = sorted(set(R[e]) - set(W[e]) or set(R[e]))[0]
+            fn, c = R[e][k][0]
+            chk.violation(rule, "marsh.c", fn.name, "step:%s->%s" % (e[0].lstrip("_"), e[1].lstrip("_")), c.loc,
+                          "`%s` steps the depth by %s where the writer steps by %s on the same kind of nesting: values the writer "
+                          "accepts at the recursion limit are refused by the reader (or the other way round)" % (c.text()[:60], sorted(R[e]), sorted(W[e])))
+    chk.floor(rule, 5, n)
